@@ -187,7 +187,9 @@ func (e *Engine) verifyFunc(fi *FuncInfo, con *Contract) (res *FuncResult) {
 						res.Err = fmt.Sprintf("%s: %s", c.curFunc, u.msg)
 						return
 					}
-					panic(r)
+					// an internal error of the engine on this function (a construct outside the supported subset that is not
+					// diagnosed as such) must not take the whole check down: it is reported like any undecided function
+					res.Err = fmt.Sprintf("%s: internal error: %v", c.curFunc, r)
 				}
 			}()
 			c.run(al)
